@@ -91,6 +91,16 @@ Theorem C03_lazy_eq_eager : forall lines k qs,
 Proof. exact lazy_eq_eager. Qed.
 Print Assumptions C03_lazy_eq_eager.
 
+(* the same for every HISTORY of public operations on the alias: lookups interleaved in any order with
+   parser[alias] (__getitem__, which also loads a pending alias: parse + expand k) and getTargetCount(alias)
+   (which does not load and changes nothing).  All answers coincide with the eager parser's, except the
+   counts getTargetCount reports (mask erases them: a pending alias reports (0, 0)). *)
+Theorem C03_lazy_eq_eager_ops : forall lines k ops,
+  exists p, eager_init k lines = Some p /\
+            map mask (run (lazy_init k lines) ops) = map mask (run p ops).
+Proof. exact lazy_eq_eager_ops. Qed.
+Print Assumptions C03_lazy_eq_eager_ops.
+
 (* the boolean specification evaluated by the check on the implementation's answers (run_C03 mode 2)
    accepts exactly the answer of the lookup *)
 Theorem C03_specb_correct : forall lines k t q out,
@@ -129,3 +139,13 @@ Example C03_ex_lazy :
   /\ length (circle alphabet [65;78;65] 2) = 48%nat.
 Proof. vm_compute. split; reflexivity. Qed.
 Print Assumptions C03_ex_lazy.
+
+(* parser[alias] first, then a lookup at distance 1: the expansion must have happened (k = 1) *)
+Example C03_ex_getitem_then_lookup :
+  run (lazy_init 1 ex_lines) [OTargetCount; OGetItem; OLookup [84;65;65]; OTargetCount] =
+  [Counts 0 0;
+   Items [([65;65;65], 1); ([65;65;84], 7); ([84;84;84], 3); ([65;78;65], 4); ([71;71], 5)];
+   Ans (Some (1, [65;65;65], 1%nat));
+   Counts 5 34].
+Proof. vm_compute. reflexivity. Qed.
+Print Assumptions C03_ex_getitem_then_lookup.
